@@ -67,7 +67,7 @@ let rec val_str (v : coq_val) : string =
 and ovals_str vs =
   Stdlib.String.concat ";" (Stdlib.List.map (function None -> "_" | Some v -> val_str v) vs)
 
-let err_str = function EParse -> "parse" | ESerialize -> "serialize" | ERange -> "range" | EValue -> "value"
+let err_str = function EParse -> "parse" | ESerialize -> "serialize" | ERange -> "range" | EValue -> "value" | EAttr -> "attr"
 let res_str (f : 'a -> string) = function
   | Res.Ok x -> "ok " ^ f x | Res.Err e -> "err " ^ err_str e | Res.Crash -> "crash" | Res.OutOfFuel -> "fuel"
 let fin_str = function FinOk -> "end" | FinCrash -> "crash" | FinFuel -> "fuel"
